@@ -5,17 +5,19 @@ package casper
 // vote of that validator: whenever the real verifyVerification accepts it, the
 // new vote forms no slashable pair with any earlier vote (same target height
 // with a different target; span strictly inside / strictly surrounding).
-// myVerification (the node's own vote) is run on the same states.
+// The node's own votes (myVerification) are only returned after this same
+// verifyVerification accepted them, so the lemma covers produced votes too;
+// myVerification itself is not executed (see outside).
 
 //verif:property C18
-//verif:bound tree of exactly N checkpoints (N = 3, 4 quick; 5 thorough), every tree shape (parent of node i arbitrary among nodes 0..i-1), root epoch arbitrary below 2^32, heights = epoch*100 (mainnet BlocksOfEpoch); every non-root checkpoint carries 2 sup links whose source height is an arbitrary epoch boundary below the checkpoint and whose signature slot for the validator is empty or 1..2 arbitrary bytes; validator order = obligation argument (0, 9); the new vote targets any non-root node of the tree from an arbitrary source epoch (source hash one of two fixed hashes) and carries the genuine signature of the validator key
+//verif:bound tree of exactly N checkpoints (N = 3, 4 quick; 5 thorough), every tree shape (parent of node i arbitrary among nodes 0..i-1), root epoch arbitrary below 2^32, heights = epoch*100 (mainnet BlocksOfEpoch); every non-root checkpoint carries 2 sup links (1 in the 5-node thorough obligations) whose source height is an arbitrary epoch boundary below the checkpoint and whose signature slot for the validator is empty or 1..2 arbitrary bytes; validator order = obligation argument (0, 9); the new vote targets any non-root node of the tree from an arbitrary source epoch (source hash one of two fixed hashes) and carries the genuine signature of the validator key
 //verif:assume the store describes the same checkpoints as the in-memory tree: GetCheckpointsByHeight(h) returns exactly the tree nodes of height h (same objects), GetCheckpoint finds tree nodes by hash (harness mock of state.Store)
 //verif:assume every checkpoint that carries a vote of the validator is still in the in-memory tree (votes on branches pruned by finalisation are invisible to verifySpanHeight; not covered)
 //verif:assume stored sup links have SourceHeight = 100*k below the height of the checkpoint holding them (established by verification.valid for every link added through addVerificationToCheckpoint)
 //verif:assume signature validity is an uninterpreted predicate of (key, message, signature) for the solver (XPub.Verify), so both outcomes of the signature check are explored; the native replay and the validation runs use real ed25519 on the genuine signature
-//verif:outside the schedules of block / message arrival that drive these calls (ApplyBlock, AuthVerification, the event dispatcher, rollback channel); persistence; two votes for the SAME target from different sources (not part of the property statement, accepted by the code)
-//verif:obligation fn=VerifC18Accept args=3,0;4,0;4,9 validate=12 mode=int
-//verif:obligation fn=VerifC18Accept args=5,0;5,9 tier=thorough secs=3000 mode=int
+//verif:outside myVerification itself (reads the node key file through config.CommonConfig.PrivateKey and signs with real ed25519; it returns a vote only if the verifyVerification decided here accepts it); the schedules of block / message arrival that drive these calls (ApplyBlock, AuthVerification, the event dispatcher, rollback channel); persistence; two votes for the SAME target from different sources (not part of the property statement, accepted by the code)
+//verif:obligation fn=VerifC18Accept args=3,0,2;4,0,2;4,9,2 validate=12 mode=int
+//verif:obligation fn=VerifC18Accept args=5,0,1;5,9,1 tier=thorough secs=3000 mode=int
 
 import (
 	"encoding/hex"
@@ -86,7 +88,7 @@ func (s *verifC18Store) SaveChainStatus(*types.BlockHeader, []*types.BlockHeader
 
 // verifC18World builds a Casper over an arbitrary tree of n checkpoints with
 // arbitrary earlier votes of validator slot `order`.
-func verifC18World(n int, order int) (*Casper, []*treeNode, uint64) {
+func verifC18World(n int, order int, links int) (*Casper, []*treeNode, uint64) {
 	e0 := verifU64("rootEpoch")
 	verifAssume(e0 < 1<<32)
 	nodes := make([]*treeNode, n)
@@ -108,7 +110,7 @@ func verifC18World(n int, order int) (*Casper, []*treeNode, uint64) {
 			cp.Parent = nodes[p].Checkpoint
 			cp.ParentHash = nodes[p].Hash
 			nodes[p].children = append(nodes[p].children, nodes[i])
-			for j := 0; j < 2; j++ {
+			for j := 0; j < links; j++ {
 				k := verifU64("linkSourceEpoch")
 				verifAssume(k < e0+depth[i])
 				sl := &types.SupLink{SourceHeight: k * 100, SourceHash: bc.Hash{V0: uint64(i + 1), V1: uint64(j + 1), V2: 0x50}}
@@ -121,8 +123,8 @@ func verifC18World(n int, order int) (*Casper, []*treeNode, uint64) {
 	return &Casper{store: store, tree: nodes[0]}, nodes, e0
 }
 
-func VerifC18Accept(n int, order int) {
-	c, nodes, _ := verifC18World(n, order)
+func VerifC18Accept(n int, order int, links int) {
+	c, nodes, _ := verifC18World(n, order, links)
 	t := 1
 	if n > 2 {
 		t = 1 + verifChoice("target", n-1)
